@@ -216,6 +216,22 @@ CHECKS = {
   note='trusted: the single-pass linker model (used for the design-level prediction and the known-finding key '
        'only; the verdict comes from the real ld), gcc/ld/loader of the sandbox, TLC',
   design='5/C14'),
+ 'C15': dict(
+  technique='TLA+ specification of the install-directory defaults, kind -> directory mapping and DESTDIR realisation '
+            '(Install.tla); TLC-generated configurations (Install_Gen.tla) run through real configure, gcc build, '
+            'make install DESTDIR=..., tree snapshots, patchelf read-back and make uninstall; validated by TLC '
+            '(Install_Trace.tla)',
+  text='For every generated combination of installables (executable with shared and static dependencies, versioned '
+       'shared library, static library, header, header directory with an include pattern, man page, data file with '
+       'an explicit install Path, pkg-config file), directory= arguments, seven install-directory options (paths '
+       'with spaces) and DESTDIR values (spaces, "$"), TLC computes the expected staged tree from the path objects '
+       'install() returned plus the run-time dependency closure and checks: every returned path lies under the '
+       'configured directory of its kind, the staged tree equals the expected set exactly, the installed '
+       'executable\'s rpath names the installed library directory and no build directory, nothing outside DESTDIR '
+       'changed, and uninstall leaves no file.',
+  note='trusted: Install.tla default chain (prefix -> exec_prefix -> bindir ...), the convention that a run-time '
+       'dependency is staged at libdir + its build-relative path, real doppel/patchelf/gcc',
+  design='5/C15'),
 }
 
 NOT_YET = {}
